@@ -632,7 +632,7 @@ where
                 };
                 match right.specialize() {
                     SingleBoundary::NotAKnot => {
-                        a_mid[len - 1] = dx_1;
+                        a_mid[len - 1] = dx_2;
                         let d = x[len - 1] - x[len - 3];
                         a_low[len - 1] = d;
                         let tmp1 = (two * d + dx_1) * dx_2;
